@@ -280,9 +280,10 @@ func TestC10(t *testing.T) {
 	// denser inner flows: fewer leaves, more flows, richer action alphabet
 	g2 := wfGen{MaxLeaves: 3, MaxFlows: 4, Actions: []string{"a", "b", "c", ""}, MaxN: 1, MaxVisits: 4, FuelMax: 20, PreferFlows: true}
 	rapidPart(r, "rand-dense", r.pick(3000, 50000), g2.gen, checkC10)
-	// flows that contain themselves / each other (bounded by the fuel)
-	g3 := wfGen{MaxLeaves: 3, MaxFlows: 3, Actions: []string{"a", "b", ""}, PErr: 10, PExecErr: 60, MaxN: 2, MaxVisits: 4, FuelMax: 10, Recursion: true, PreferFlows: true}
-	rapidPart(r, "recursive", r.pick(3000, 50000), g3.gen, checkC10)
+	// Flows that contain themselves or each other are supported by the executor and the
+	// reference interpreter (c10Recursive, used by replays) but are NOT generated: C10 quantifies
+	// over hierarchical flows up to depth 4, a recursive arrangement has no finite flattening, and
+	// an implementation that rejects recursive nesting would still satisfy the property.
 }
 
 func init() { registerReplay("C10", checkC10) }
